@@ -182,8 +182,19 @@ func mergeContracts(own, iface *Contract, recvName string) *Contract {
 	m := *own
 	m.Requires = append(append([]*Clause{}, iface.Requires...), own.Requires...)
 	m.Ensures = append(append([]*Clause{}, iface.Ensures...), own.Ensures...)
-	m.Assigns = append(append([]AssignTarget{}, iface.Assigns...), own.Assigns...)
-	m.AssignAll = own.AssignAll || iface.AssignAll
+	// frame: the interface frame is what dynamic-dispatch callers havoc; an implementation may state a tighter frame of
+	// its own, used by callers that know the concrete type. The body is checked against BOTH (atReturn), so neither
+	// view is assumed.
+	if len(own.Assigns) > 0 && !own.AssignAll {
+		m.Assigns = append([]AssignTarget{}, own.Assigns...)
+		m.ifaceAssigns = append([]AssignTarget{}, iface.Assigns...)
+		m.ifaceAssignAll = iface.AssignAll
+		m.hasIfaceFrame = true
+		m.AssignAll = false
+	} else {
+		m.Assigns = append([]AssignTarget{}, iface.Assigns...)
+		m.AssignAll = own.AssignAll || iface.AssignAll
+	}
 	m.Props = append(append([]string{}, own.Props...), iface.Props...)
 	m.Lets = append(append([]LetDef{}, iface.Lets...), own.Lets...)
 	m.ifaceRecv = iface.RecvName
@@ -268,6 +279,16 @@ func (vc *VC) calleeEnv(ci *calleeInfo, heap, old *Heap) *Env {
 			}
 			return TV{}, false
 		}
+		e.cellPtr = func(name string) (Term, types.Type, bool) {
+			for i, fv := range fn.FreeVars {
+				if fv.Name() == name {
+					if et, ok := derefType(fv.Type()); ok && !isPlainStruct(et) {
+						return ci.closureBind[i], et, true
+					}
+				}
+			}
+			return "", nil, false
+		}
 	}
 	vc.bindLets(e, ci.contract)
 	return e
@@ -296,6 +317,9 @@ func (vc *VC) applyContract(st *State, ci *calleeInfo, instr ssa.Instruction, si
 	}
 	st.callCount[ci.key]++
 	vc.siteGhost(st, ci, instr, true)
+	if ci.recv != nil {
+		vc.lockHooks(st, ci.key, ci.recv.T, instr, true)
+	}
 	for _, gt := range c.GhostTags {
 		pe := vc.calleeEnv(ci, st.heap, st.heap)
 		if tv, ok := pe.vars[gt]; ok && tv.S.Sort == "Slice" {
@@ -356,6 +380,9 @@ func (vc *VC) applyContract(st *State, ci *calleeInfo, instr ssa.Instruction, si
 	}
 	if ci.key == "(*sync.WaitGroup).Wait" {
 		vc.joinThreads(st, instr)
+	}
+	if ci.recv != nil {
+		vc.lockHooks(st, ci.key, ci.recv.T, instr, false)
 	}
 	switch len(out) {
 	case 0:
@@ -497,6 +524,7 @@ func (vc *VC) atReturn(st *State, ret *ssa.Return) {
 		}
 	}
 	vc.bindLetsOld(env, c)
+	vc.threadEndCheck(st, site)
 	for _, g := range vc.contract.Ghosts {
 		if g.Callee == "@return" {
 			vc.ghostAssign(st, env, g.Target, g.Value)
@@ -510,7 +538,12 @@ func (vc *VC) atReturn(st *State, ret *ssa.Return) {
 		g := vc.trClause(env, en)
 		vc.oblige(st, g, en.Label, "ensures", site, clauseProps(en, c.Props), en.Src, "")
 	}
-	vc.frameCheck(st, env, c, site)
+	vc.frameCheck(st, env, c, site, "frame:")
+	if c.hasIfaceFrame && !c.ifaceAssignAll {
+		ic := *c
+		ic.Assigns = c.ifaceAssigns
+		vc.frameCheck(st, env, &ic, site, "interface-frame:")
+	}
 }
 
 func (vc *VC) bindLetsOld(env *Env, c *Contract) {
@@ -533,7 +566,7 @@ func (vc *VC) bindSelf(env *Env) {
 	}
 }
 
-func (vc *VC) frameCheck(st *State, env *Env, c *Contract, site string) {
+func (vc *VC) frameCheck(st *State, env *Env, c *Contract, site string, labelPrefix string) {
 	if c.AssignAll {
 		return
 	}
@@ -546,7 +579,8 @@ func (vc *VC) frameCheck(st *State, env *Env, c *Contract, site string) {
 	whole := map[string]bool{}
 	for _, t := range c.Assigns {
 		for _, lv := range penv.lvals(t.Expr) {
-			if t.Any || lv.Idx == "" {
+			if t.Any || lv.Idx == "" || t.Guard != nil {
+				// guarded locations also change through other threads (the havoc at Lock): outside the sequential frame
 				whole[lv.Arr] = true
 			} else {
 				allowed[lv.Arr] = append(allowed[lv.Arr], lv.Idx)
@@ -587,7 +621,7 @@ func (vc *VC) frameCheck(st *State, env *Env, c *Contract, site string) {
 		} else {
 			goal = eq(final, initial)
 		}
-		vc.oblige(st, goal, "frame:"+n, "frame", site, c.Props, "assigns clause permits the change to "+n, "")
+		vc.oblige(st, goal, labelPrefix+n, "frame", site, c.Props, "assigns clause permits the change to "+n, "")
 	}
 }
 
@@ -605,12 +639,8 @@ func (vc *VC) execBuiltin(st *State, b *ssa.Builtin, call *ssa.CallCommon, instr
 		}
 		if mt, ok := types.Unalias(call.Args[0].Type()).Underlying().(*types.Map); ok {
 			ks := sortOf(mt.Key())
-			fn := "maplen_" + sortID(ks)
-			vc.d.declFun(fn, []Sort{fmt.Sprintf("(Array %s Bool)", ks)}, "Int")
-			vc.d.axiom(fmt.Sprintf("(forall ((m (Array %s Bool))) (! (>= (%s m) 0) :pattern ((%s m))))", ks, fn, fn))
-			vc.d.axiom(fmt.Sprintf("(forall ((m (Array %s Bool)) (k %s)) (! (=> (select m k) (> (%s m) 0)) :pattern ((%s m) (select m k))))", ks, ks, fn, fn))
-			vc.d.axiom(fmt.Sprintf("(= (%s ((as const (Array %s Bool)) false)) 0)", fn, ks))
-			md := vc.hget(st.heap, mapDomArr(ks), mapDomSort(ks))
+			fn := vc.maplenFun(ks)
+			md := vc.hget(st.heap, mapDomArr(ks, sortOf(mt.Elem())), mapDomSort(ks))
 			return Val{T: app("ite", eq(v.T, "0"), "0", app(fn, app("select", md, v.T))), Typ: types.Typ[types.Int]}
 		}
 		vc.unsupported(instr, "len of %v", call.Args[0].Type())
@@ -626,8 +656,8 @@ func (vc *VC) execBuiltin(st *State, b *ssa.Builtin, call *ssa.CallCommon, instr
 		k := vc.val(st, call.Args[1]).T
 		mt := types.Unalias(call.Args[0].Type()).Underlying().(*types.Map)
 		ks := sortOf(mt.Key())
-		md := vc.hget(st.heap, mapDomArr(ks), mapDomSort(ks))
-		vc.setHeap(st, mapDomArr(ks), mapDomSort(ks), app("ite", eq(m.T, "0"), md, app("store", md, m.T, app("store", app("select", md, m.T), k, "false"))))
+		md := vc.hget(st.heap, mapDomArr(ks, sortOf(mt.Elem())), mapDomSort(ks))
+		vc.setHeap(st, mapDomArr(ks, sortOf(mt.Elem())), mapDomSort(ks), app("ite", eq(m.T, "0"), md, app("store", md, m.T, app("store", app("select", md, m.T), k, "false"))))
 		return Val{}
 	case "print", "println":
 		return Val{}
@@ -1182,6 +1212,7 @@ func (vc *VC) ghostAssign(st *State, env *Env, target, value ast.Expr) {
 		panic(specError{"ghost assignment to a multi-location target"})
 	}
 	lv := lvs[0]
+	vc.locksetCheck(st, lv.Arr, lv.Idx, nil, "write")
 	if lv.Idx == "" {
 		vc.setHeap(st, lv.Arr, lv.Sort, v.T)
 		return
@@ -1281,7 +1312,7 @@ func (vc *VC) modOfCall(st *State, call ssa.CallInstruction, inLoop func(ssa.Val
 			if inv {
 				base = vc.val(st, cc.Args[0]).T
 			}
-			add(mapDomArr(ks), mapDomSort(ks), base, inv, false)
+			add(mapDomArr(ks, sortOf(mt.Elem())), mapDomSort(ks), base, inv, false)
 		}
 		return
 	}
@@ -1461,6 +1492,10 @@ func (vc *VC) execGo(st *State, g *ssa.Go) {
 		vc.oblige(st, gl, r.Label, "requires", site, clauseProps(r, vc.props()), r.Src, ci.key)
 		st.assume = append(st.assume, gl)
 	}
+	for _, li := range c.LockInvs {
+		gl := vc.trClause(env, li.Clause)
+		vc.oblige(st, gl, "lock-invariant-at-fork:"+li.Clause.Label, "thread", site, clauseProps(li.Clause, vc.props()), li.Clause.Src, ci.key)
+	}
 	if c.ThreadWG != nil {
 		wg := env.tr(c.ThreadWG)
 		arr := vc.hget(st.heap, "G_sync_WaitGroup_Forked", arrSort("Int"))
@@ -1473,10 +1508,11 @@ func (vc *VC) execGo(st *State, g *ssa.Go) {
 // joinThreads is called after (*sync.WaitGroup).Wait returned.
 func (vc *VC) joinThreads(st *State, instr ssa.Instruction) {
 	site := vc.siteOf(instr)
-	base := st.joinBase
-	if base == "" {
-		base = vc.d.declConst("GV_Forks", "Int")
-	}
+	// threads with an id below the ghost variable Joined have been joined already (by an earlier Wait, possibly in an
+	// earlier iteration of a loop that was cut); threads forked by this function have ids from its entry value of Forks
+	entryForks := vc.d.declConst("GV_Forks", "Int")
+	joined := vc.hget(st.heap, "GV_Joined", "Int")
+	base := app("ite", app(">=", joined, entryForks), joined, entryForks)
 	forks := vc.hget(st.heap, "GV_Forks", "Int")
 	// all go sites of this function (they may be inside loops that were cut: use the static list)
 	seen := map[*ssa.Function]bool{}
@@ -1536,8 +1572,13 @@ func (vc *VC) joinThreads(st *State, instr ssa.Instruction) {
 				l2 := e2.lvals(t.Expr)
 				for i, lv := range l1 {
 					ghost := strings.HasPrefix(lv.Arr, "GV_") || strings.HasPrefix(lv.Arr, "G_")
+					if gv := vc.specs.GhostVars[strings.TrimPrefix(lv.Arr, "GV_")]; gv != nil && gv.Region {
+						ghost = false
+					}
 					tgts = append(tgts, tgt{lv: lv, perTid: lv.Idx == "jk", ghost: ghost, src: t.Src, any: t.Any})
-					if ghost {
+					if ghost || t.Guard != nil {
+						// ghost state is not memory; guarded locations are synchronised by their mutex (lockset
+						// obligations in the thread body)
 						continue
 					}
 					var goal Term
@@ -1578,6 +1619,10 @@ func (vc *VC) joinThreads(st *State, instr ssa.Instruction) {
 				}
 			}
 			st.assume = append(st.assume, fmt.Sprintf("(forall ((jk Int)) (=> %s %s))", inRange, and(ens...)))
+			// every mutex is free after the join (mutex-released-at-thread-end), so its invariant holds
+			for _, li := range c.LockInvs {
+				st.assume = append(st.assume, vc.trClause(mkEnv(st.heap, pre, base), li.Clause))
+			}
 			// per-thread ghost slots of other threads are untouched
 			for _, tg := range tgts {
 				if tg.perTid {
@@ -1589,6 +1634,7 @@ func (vc *VC) joinThreads(st *State, instr ssa.Instruction) {
 		}
 	}
 	st.joinBase = forks
+	vc.setHeap(st, "GV_Joined", "Int", forks)
 }
 
 // staticOrdinal: position of a call among the calls to the same callee in this function, in source order.
@@ -1631,4 +1677,21 @@ func (vc *VC) staticOrdinal(instr ssa.Instruction) int {
 		}
 	}
 	return vc.callOrd[instr]
+}
+
+
+// maplenFun declares the cardinality function of key sets (len of a Go map, card(...) in specs).
+func (vc *VC) maplenFun(ks Sort) string {
+	fn := "maplen_" + sortID(ks)
+	if vc.d.seen["ax_"+fn] {
+		return fn
+	}
+	vc.d.seen["ax_"+fn] = true
+	vc.d.declFun(fn, []Sort{fmt.Sprintf("(Array %s Bool)", ks)}, "Int")
+	vc.d.axiom(fmt.Sprintf("(forall ((m (Array %s Bool))) (! (>= (%s m) 0) :pattern ((%s m))))", ks, fn, fn))
+	vc.d.axiom(fmt.Sprintf("(forall ((m (Array %s Bool)) (k %s)) (! (=> (select m k) (> (%s m) 0)) :pattern ((%s m) (select m k))))", ks, ks, fn, fn))
+	vc.d.axiom(fmt.Sprintf("(= (%s ((as const (Array %s Bool)) false)) 0)", fn, ks))
+	// adding a new element increases the cardinality by one
+	vc.d.axiom(fmt.Sprintf("(forall ((m (Array %s Bool)) (k %s)) (! (=> (not (select m k)) (= (%s (store m k true)) (+ (%s m) 1))) :pattern ((%s (store m k true)))))", ks, ks, fn, fn, fn))
+	return fn
 }
